@@ -1221,8 +1221,8 @@ ecdsa_sign(ec_curve_p curve, bn_p hash, bn_p priv_key, bn_p rnd,
 		return (-1);
 	/* HASH reduce (e). */
 	BN_RET_ON_ERR(bn_assign(&R.y, hash));
-	BN_RET_ON_ERR(bn_mod_reduce(&R.y, &curve->n,
-	    &curve->n_mod_rd_data));
+	BN_RET_ON_ERR(bn_mod(&R.y, &curve->n,
+	    &curve->n_mod_rd_data)); /* e = H mod n */
 
 	/* Store result. (Possible sign_r == hash so do it here). */
 	BN_RET_ON_ERR(bn_assign(sign_r, &R.x));
@@ -1380,6 +1380,8 @@ ecdsa_verify(ec_curve_p curve, bn_p hash, bn_p sign_r, bn_p sign_s,
 	    bn_cmp(sign_r, &curve->n) >= 0 ||
 	    bn_cmp(sign_s, &curve->n) >= 0) /* sign_r and sign_s check: [1, n-1]. */
 		return (EINVAL);
+	if (0 != pub_key->infinity) /* Q != O. */
+		return (EINVAL);
 	/* Double size + 1 digit. */
 	bits = EC_CURVE_CALC_BITS_DBL(curve);
 	/* Init */
@@ -1388,7 +1390,7 @@ ecdsa_verify(ec_curve_p curve, bn_p hash, bn_p sign_r, bn_p sign_s,
 	BN_RET_ON_ERR(ec_point_init(&R, curve->m));
 	/* Hash too long? - reduce. */
 	BN_RET_ON_ERR(bn_assign(&u1, hash));
-	BN_RET_ON_ERR(bn_mod_reduce(&u1, &curve->n, &curve->n_mod_rd_data));
+	BN_RET_ON_ERR(bn_mod(&u1, &curve->n, &curve->n_mod_rd_data)); /* e = H mod n */
 
 	/* ECDSA: u1 = (hash * s^−1) mod n, u2 = (r * s^−1) mod n */
 	/* GOST: u1 = (hash^−1 * s) mod n, u2 = -(hash^−1 * r) mod n */
@@ -1554,7 +1556,8 @@ ecdsa_verify_priv_key(ec_curve_p curve, bn_p hash, bn_p sign_r, bn_p sign_s,
 	    bn_cmp(sign_r, &curve->n) >= 0 ||
 	    bn_cmp(sign_s, &curve->n) >= 0) /* sign_r and sign_s check: [1, n-1]. */
 		return (EINVAL);
-	if (bn_cmp(priv_key, &curve->n) >= 0) /* Key check. */
+	if (0 != bn_is_zero(priv_key) ||
+	    bn_cmp(priv_key, &curve->n) >= 0) /* Key check: [1, n-1]. */
 		return (EINVAL);
 	/* Double size + 1 digit. */
 	bits = EC_CURVE_CALC_BITS_DBL(curve);
@@ -1564,8 +1567,8 @@ ecdsa_verify_priv_key(ec_curve_p curve, bn_p hash, bn_p sign_r, bn_p sign_s,
 	BN_RET_ON_ERR(ec_point_init(&R, curve->m));
 	/* Hash too long? - reduce. */
 	BN_RET_ON_ERR(bn_assign(&u1, hash));
-	BN_RET_ON_ERR(bn_mod_reduce(&u1, &curve->n,
-	    &curve->n_mod_rd_data));
+	BN_RET_ON_ERR(bn_mod(&u1, &curve->n,
+	    &curve->n_mod_rd_data)); /* e = H mod n */
 
 	/* ECDSA: u1 = (hash * s^−1) mod n, u2 = (r * s^−1) mod n */
 	/* GOST: u1 = (hash^−1 * s) mod n, u2 = -(hash^−1 * r) mod n */
